@@ -152,6 +152,12 @@ def scalar_field(f, seed):
     return df.Field(f.mesh, nvdim=1, value=tracer(n, 1, seed + 2) + 0.5, valid=coded_mask(n, 2))
 
 
+def _mapped(f):
+    vm = f.vdim_mapping or {}
+    dims = list(f.mesh.region.dims)
+    return f.vdims is not None and sorted(vm) == sorted(f.vdims) and sorted(str(v) for v in vm.values()) == sorted(dims)
+
+
 def _blank(f, dtype):
     n = tuple(int(i) for i in f.mesh.n)
     return df.Field(f.mesh, nvdim=f.nvdim, value=np.zeros((*n, f.nvdim)), dtype=dtype, valid=True)
@@ -277,8 +283,9 @@ def build_events():
     add("diff-ax0-norestrict", "same", lambda f, o: f.diff(_dims(f)[0], restrict2valid=False))
     add("diff2-axL-norestrict", "same", lambda f, o: f.diff(_dims(f)[-1], order=2, restrict2valid=False))
     add("grad", "same", lambda f, o: f.grad, enabled=lambda f: f.nvdim == 1)
-    add("div", "same", lambda f, o: f.div, enabled=lambda f: f.nvdim == f.mesh.region.ndim and f.nvdim > 1)
-    add("curl", "same", lambda f, o: f.curl, enabled=lambda f: f.nvdim == 3 and f.mesh.region.ndim == 3)
+    # div / curl are defined for fields whose components are mapped one-to-one onto the mesh axes (C05: others are refused)
+    add("div", "same", lambda f, o: f.div, enabled=lambda f: f.nvdim == f.mesh.region.ndim and f.nvdim > 1 and _mapped(f))
+    add("curl", "same", lambda f, o: f.curl, enabled=lambda f: f.nvdim == 3 and f.mesh.region.ndim == 3 and _mapped(f))
     add("laplace", "same", lambda f, o: f.laplace)
     add("np.sin", "same", lambda f, o: np.sin(f))
     add("np.negative", "same", lambda f, o: np.negative(f))
